@@ -1676,6 +1676,18 @@ class StateEngine(object):
                                             results = branch_results["results"]
                                             results[index] = "__CAUGHT__"
 
+                            """
+                            A Map or Parallel state whose error has been caught
+                            has failed branches to wind up, exactly as when it
+                            is retried: cancel the pending Tasks of the sibling
+                            branches and release their held events, now that
+                            the Catcher's Next state event has been published.
+                            """
+                            if execution_arn in self.branch_metadata and (
+                                state_type == "Map" or state_type == "Parallel"
+                            ):
+                                self.check_pending_results(execution_arn)
+
                         break
 
 
